@@ -14,6 +14,8 @@ structure WF (cfg : Cfg) : Prop where
   start_first : ∀ j i, j < cfg.nJobs → i < cfg.jobStarts.getD j 0 → cfg.job i ≠ j
   job_lt : ∀ i, i < cfg.n → cfg.job i < cfg.nJobs
   obj_lt : ∀ i, i < cfg.n → cfg.obj i < cfg.nObjs
+  /-- the tensors of a job are contiguous -/
+  contig : ∀ i k, i < k → k < cfg.n → cfg.job k = cfg.job i → cfg.job (i + 1) = cfg.job i
 
 structure SInv (cfg : Cfg) (s : State) : Prop where
   tasks_len : s.tasks.length = cfg.n
